@@ -425,6 +425,28 @@ func variantAct(a *Act, k int, public bool) *Act {
 
 func genQ02(w *bufio.Writer, rng *prng, n int, depth int) {
 	q := &qw{w}
+	// what a caller does with the slices handed out by the marker accessors is its own business
+	for _, b := range [][]byte{redact.StartMarker(), redact.EndMarker(), redact.RedactedMarker(), redact.EscapeMarkers(nil)} {
+		for i := range b {
+			b[i] = 'x'
+		}
+		_ = append(b[:0], "]]"...)
+	}
+	// complex numbers (no counterpart in the model): sign, magnitude and special values of both parts are unsafe
+	{
+		setRegistry(false)
+		setHook(nil)
+		cs := []complex128{complex(1.5, 2.25), complex(-7.5, -3.125), complex(3, -0.5), complex(-1, 100), complex(0.25, 8)}
+		for _, d := range []string{"%v", "%f", "%e", "%g", "%.2f", "%8.2f", "%+v", "% .1e", "%x", "[%v]"} {
+			var outs []string
+			for _, c := range cs {
+				outs = append(outs, string(redact.Sprintf(d, c)), string(redact.Sprintf(d, []interface{}{complex64(c), c})))
+			}
+			for k := 2; k < len(outs); k++ {
+				q.eq("C02", "Redact() of two instantiations of the same shape differ", fn("redact", lit(outs[k])), fn("redact", lit(outs[k%2])), fmt.Sprintf("complex operands under %q: %q vs %q", d, outs[k], outs[k%2]))
+			}
+		}
+	}
 	for i := 0; i < n; i++ {
 		g := &vgen{rng: rng, hostile: rng.coin(1, 2), noDump: true}
 		c := &pcase{reg: rng.coin(1, 4)}
@@ -756,9 +778,40 @@ func q05reflectValues(q *qw, rng *prng) {
 	setRegistry(false)
 }
 
+type SvByte uint8
+
+func (SvByte) SafeValue() {}
+
+type svByteRec struct {
+	Roles []SvByte
+	One   SvByte
+	Arr   [2]SvByte
+}
+
+// slices and arrays whose element type is declared safe and of kind uint8: printed element by
+// element (not as a byte string) under the integer verbs, every element safe
+func q05safeBytes(q *qw) {
+	setRegistry(false)
+	for _, d := range []string{"%v", "%+v", "%d", "%3d", "%#v", "%o"} {
+		for _, x := range []interface{}{[]SvByte{5, 6}, [2]SvByte{7, 8}, svByteRec{[]SvByte{1, 2}, 3, [2]SvByte{4, 5}}, &svByteRec{[]SvByte{9}, 3, [2]SvByte{4, 5}},
+			[]ifaces.SafeByte{65, 66}} {
+			var got string
+			p, _ := try(func() { got = string(redact.Sprintf(d, x)) })
+			info := fmt.Sprintf("directive %q operand %T %v", d, x, x)
+			q.truth("C11", "print call panicked", !p, info)
+			if p {
+				continue
+			}
+			want := fmt.Sprintf(d, x)
+			q.eq("C05", "declared-safe byte-sized elements are not enveloped", lit(got), lit(want), info)
+		}
+	}
+}
+
 func genQ05(w *bufio.Writer, rng *prng, n int, depth int) {
 	q := &qw{w}
 	q05reflectValues(q, rng)
+	q05safeBytes(q)
 	for i := 0; i < n; i++ {
 		g := &vgen{rng: rng, hostile: true, validUtf8: true}
 		c := &pcase{reg: rng.coin(1, 2), entry: "sprintf"}
@@ -1024,6 +1077,35 @@ func genQ08(w *bufio.Writer, rng *prng, n int, depth int) {
 	q := &qw{w}
 	setRegistry(false)
 	setHook(nil)
+	// redactables that print themselves through a method, under %#v too; snapshots of one builder's
+	// bytes (sharing its array) as operands
+	{
+		var sb redact.StringBuilder
+		sb.Printf("u=%s ", "al‹ice")
+		sb.SafeString("mid\n")
+		r := sb.RedactableString()
+		for _, d := range []string{"%v", "%#v", "%#10v", "%s", "%+v"} {
+			q.eq("C08", "Sprintf("+d+", StringBuilder) = its contents", lit(string(redact.Sprintf(d, sb))), lit(string(r)), "builder "+string(r))
+			q.eq("C08", "Sprintf("+d+", &StringBuilder) = its contents", lit(string(redact.Sprintf(d, &sb))), lit(string(r)), "builder "+string(r))
+		}
+		q.eq("C08", "Sprintf(%#v, []interface{}{Safe(r)})", lit(string(redact.Sprintf("%#v", []interface{}{redact.Safe(r)}))), lit("[]interface {}{"+string(r)+"}"), "redactable "+string(r))
+		var sb2 redact.StringBuilder
+		sb2.Grow(200)
+		sb2.UnsafeString("alpha")
+		first := sb2.RedactableBytes()
+		sb2.SafeString(" and ")
+		sb2.UnsafeString("beta\ngamma")
+		both := sb2.RedactableBytes()
+		f0, b0 := string(first), string(both)
+		got := string(redact.Sprintf("%s|%s", first, both))
+		q.eq("C08", "Sprintf of two snapshots of one builder = concatenation with the literal", lit(got), lit(f0+"|"+b0), "snapshots")
+		var sb3 redact.StringBuilder
+		redact.JoinTo(&sb3, "+", []redact.RedactableBytes{first, both, first})
+		q.eq("C08", "JoinTo of snapshots of one builder = concatenation with the delimiter", lit(string(sb3.RedactableString())), lit(f0+"+"+b0+"+"+f0), "snapshots")
+		q.truth("C08", "operands are not consumed or overwritten by printing them", string(first) == f0 && string(both) == b0 && string(sb2.RedactableBytes()) == b0, "snapshots")
+		sb2.SafeString("tail")
+		q.truth("C08", "a result does not alias its operands' storage", got == f0+"|"+b0, "snapshots")
+	}
 	// deep composition: outputs of hundreds of KiB built by re-printing and joining (the buffer grows
 	// past the sizes at which storage policies change); compared here, the strings are too long to ship
 	{
@@ -1218,6 +1300,46 @@ func (s sfRunner) SafeFormat(p redact.SafePrinter, _ rune) {
 
 func genQ09(w *bufio.Writer, rng *prng, n int, depth int) {
 	q := &qw{w}
+	// pieces of a marker delivered by separate calls (bytes that are not characters on their own):
+	// no sequence of calls may assemble a marker; the three implementations stay well-formed and agree
+	{
+		pieces := []*Act{{K: "sb", N: 0xe2}, {K: "sb", N: 0x80}, {K: "sb", N: 0xb9}, {K: "sb", N: 0xba}, {K: "ss", S: "\xe2"}, {K: "ss", S: "\xe2\x80"},
+			{K: "ss", S: "\x80\xb9"}, {K: "ss", S: "\xba"}, {K: "sbs", S: "\x80\xba"}, {K: "sbs", S: "\xe2"}, {K: "us", S: "u"}, {K: "us", S: ""}, {K: "ub", N: 0xe2}, {K: "sb", N: 'a'}}
+		for i := 0; i < n/3+30; i++ {
+			k := 2 + rng.intn(4)
+			var acts []*Act
+			for len(acts) < k {
+				a := *pieces[rng.intn(len(pieces))]
+				acts = append(acts, &a)
+			}
+			c := &pcase{entry: "builder", acts: acts}
+			info := caseInfo(c)
+			var bout, pout string
+			bp, _ := try(func() {
+				var sb redact.StringBuilder
+				for _, a := range acts {
+					applyBuilderAct(&sb, a)
+				}
+				bout = string(sb.RedactableString())
+			})
+			pp, _ := try(func() {
+				pout = string(redact.Sprintfn(func(p redact.SafePrinter) {
+					for _, a := range acts {
+						runAction(a, p)
+					}
+				}))
+			})
+			q.truth("C11", "SafeWriter sequence panicked", !bp && !pp, info)
+			if bp || pp {
+				continue
+			}
+			q.pred("C09", "StringBuilder: result well-formed", "redactable", lit(bout), info)
+			q.pred("C09", "Sprintfn printer: result well-formed", "redactable", lit(pout), info)
+			// (the two need not agree here: the printer validates each piece on its own, the builder the run of pieces)
+			fmt.Fprintln(w, runPCase(c))
+			fmt.Fprintln(w, runPCase(&pcase{entry: "sprintfn", acts: acts}))
+		}
+	}
 	for i := 0; i < n; i++ {
 		g := &vgen{rng: rng, hostile: true, validUtf8: true, noFloats: false}
 		var acts []*Act
@@ -1372,7 +1494,17 @@ func genQ16(w *bufio.Writer, rng *prng, n int, depth int) {
 			c.hook = g.script(0)
 		}
 		isF := rng.coin(1, 2)
-		if isF {
+		if i%7 == 0 {
+			// the printf routes on a %w directive, right after HelperForErrorf has used the pooled printers
+			_, _ = try(func() { _, _ = redact.HelperForErrorf("h %w", errors.New("x")) })
+			isF = true
+			c.entry = "sprintf"
+			c.format = rng.pick([]string{"pre %w|%v", "%v %[1]w", "%w", "%-8w|"})
+			c.args = []*Val{{K: "usr", UK: 1, ID: newID(), PtrK: 1, Script: []*Act{{K: "ret", S: g.str()}}}, {K: "i", GoT: "int", I: 5}}
+			if strings.Count(c.format, "%") == 1 {
+				c.args = c.args[:1]
+			}
+		} else if isF {
 			c.entry = "sprintf"
 			c.args, c.format = g.formatFor(depth, rng.intn(4))
 		} else {
@@ -1733,6 +1865,19 @@ func genQ11(w *bufio.Writer, rng *prng, n int, depth int) {
 		}
 	}
 	genIndexGrammar(q, w, rng)
+	// maps whose keys need the full key ordering (nil interface keys, mixed kinds, struct and array keys)
+	for _, m := range []interface{}{map[interface{}]int{nil: 1, "a": 2, 3: 3}, map[interface{}]interface{}{nil: nil, 2.5: nil, true: 1, [2]int{1, 2}: "x"},
+		map[nvKey]interface{}{{1, "b"}: nil, {1, "a"}: 2}, map[[2]interface{}]int{{nil, 1}: 1, {"a", nil}: 2, {nil, nil}: 3}, map[*int]int{nil: 1}, map[error]int{nil: 0, errSink: 1}} {
+		for _, d := range []string{"%v", "%+v", "%#v", "%d", "%s"} {
+			var out string
+			p, pv := try(func() { out = string(redact.Sprintf(d, m)) })
+			info := fmt.Sprintf("directive %q operand %T panic value %v", d, m, pv)
+			q.truth("C11", "printing a map panicked", !p, info)
+			if !p && d != "%#v" {
+				q.eq("C04", "StripMarkers(redact output) = fmt output with markers replaced", fn("strip", lit(out)), fn("escm", lit(fmt.Sprintf(d, m))), info)
+			}
+		}
+	}
 	// JoinTo with operands that are not slices
 	operands := []interface{}{5, nil, "str", [2]int{1, 2}, struct{ A int }{3}, (*int)(nil), map[string]int{"a": 1}, 3.5, []int(nil), []interface{}{}, []interface{}{nil, 1}, error(nil), redact.Safe(3), []string{"a", "b"}}
 	for _, op := range operands {
@@ -1987,6 +2132,71 @@ func genQ12(w *bufio.Writer, rng *prng, n int, depth int, baseline bool) {
 	}
 	allocs := redact.VerifPoolAllocs() - allocs0
 	q.truth("C12", "probes ran on recycled printers (pool allocations far below number of calls)", allocs*4 < int64(calls), fmt.Sprintf("allocs=%d calls=%d", allocs, calls))
+	// a type registered as safe AFTER values of it have been printed (on printers now in the pool)
+	{
+		redact.VerifResetSafeTypes()
+		type lateT int
+		before := string(redact.Sprintf("id=%v", lateT(7)))
+		_ = redact.Sprint(lateT(8))
+		redact.RegisterSafeType(reflect.TypeOf(lateT(0)))
+		after1, after2 := string(redact.Sprint(lateT(7))), string(redact.Sprintf("id=%d %v", lateT(8), []lateT{9}))
+		redact.VerifResetSafeTypes()
+		again := string(redact.Sprintf("id=%v", lateT(7)))
+		q.truth("C12", "RegisterSafeType takes effect for calls made after it (recycled printers included)", before == "id=‹7›" && after1 == "7" && after2 == "id=8 [9]" && again == "id=‹7›",
+			fmt.Sprintf("before=%q after=%q %q again=%q", before, after1, after2, again))
+	}
+	// builders of every fill level around the growth steps: an accessor, unrelated calls, then more writes
+	{
+		badB := ""
+		for nfill := 55; nfill <= 140; nfill++ {
+			var sb redact.StringBuilder
+			body := strings.Repeat("a", nfill)
+			sb.UnsafeString(body)
+			_ = sb.RedactableString()
+			_ = sb.Len()
+			_ = redact.Sprint(strings.Repeat("k", 80))
+			_ = redact.Sprintf("%s|%d", strings.Repeat("m", nfill+3), nfill)
+			sb.UnsafeString("z")
+			if got, want := string(sb.RedactableString()), "‹"+body+"z›"; got != want {
+				badB = fmt.Sprintf("fill %d: got %q want %q", nfill, got, want)
+				break
+			}
+		}
+		// ... and builders steered to a full (or nearly full) array of every capacity class
+		for trial := 0; trial < 300 && badB == ""; trial++ {
+			var sb redact.StringBuilder
+			want := ""
+			first := 1 + rng.intn(150)
+			sb.UnsafeString(strings.Repeat("b", first))
+			want += strings.Repeat("b", first)
+			for step := 0; step < 3; step++ {
+				room := sb.Cap() - len(sb.RedactableString()) + 3 // the closing marker is not in the buffer yet
+				k := room - rng.intn(4)
+				if k <= 0 {
+					break
+				}
+				sb.UnsafeString(strings.Repeat("c", k))
+				want += strings.Repeat("c", k)
+				if rng.coin(1, 2) {
+					break
+				}
+			}
+			_ = sb.RedactableString()
+			_ = sb.Len()
+			_ = sb.String()
+			for _, sz := range []int{70, 80, 100, 130, 200, 260} {
+				_ = redact.Sprint(strings.Repeat("k", sz))
+				var other redact.StringBuilder
+				other.UnsafeString(strings.Repeat("o", sz))
+				_ = other.RedactableString()
+			}
+			sb.UnsafeString("z")
+			if got, w2 := string(sb.RedactableString()), "‹"+want+"z›"; got != w2 {
+				badB = fmt.Sprintf("trial %d: got %q want %q", trial, got, w2)
+			}
+		}
+		q.truth("C12", "a StringBuilder's contents changed by unrelated print calls", badB == "", badB)
+	}
 	// paddings of both kinds (zeros, blanks) from concurrent goroutines, each compared with the result
 	// computed before the goroutines started
 	{
@@ -2079,6 +2289,25 @@ func (p probeF) Format(s fmt.State, verb rune) {
 	p.rec.justV, p.rec.reproduced = redact.MakeFormat(s, verb)
 }
 
+// a SafeFormatter that first uses the printer's own number writers, then reads the directive
+type sfNumThenProbe struct{ rec *stateRec }
+
+func (p sfNumThenProbe) SafeFormat(sp redact.SafePrinter, verb rune) {
+	sp.SafeInt(3)
+	sp.SafeUint(4)
+	sp.SafeFloat(1.5)
+	sp.SafeRune('r')
+	sp.SafeString("s")
+	sp.UnsafeString("u")
+	for i, c := range "+-# 0" {
+		p.rec.flags[i] = sp.Flag(int(c))
+	}
+	p.rec.wid, p.rec.wok = sp.Width()
+	p.rec.prec, p.rec.pok = sp.Precision()
+	p.rec.verb = verb
+	p.rec.justV, p.rec.reproduced = redact.MakeFormat(sp, verb)
+}
+
 type fwd struct{ x interface{} }
 
 func (f fwd) Format(s fmt.State, verb rune) {
@@ -2168,6 +2397,13 @@ func genQ14(w *bufio.Writer, rng *prng, n int, depth int) {
 						info := fmt.Sprintf("directive %q redactState=%v reproduced %q", d, redactState, r1.reproduced)
 						same := r1.flags == r2.flags && r1.wid == r2.wid && r1.wok == r2.wok && r1.prec == r2.prec && r1.pok == r2.pok && r1.verb == r2.verb && r1.verb == verb
 						q.truth("C14", "MakeFormat does not re-create the active flags, width, precision and verb", same, info)
+						if redactState {
+							// the same State seen from a SafeFormat method after it has used the printer's writers
+							var r3 stateRec
+							_ = sprintf(d, append(append([]interface{}{}, extra...), sfNumThenProbe{&r3})...)
+							same3 := r1.flags == r3.flags && r1.wid == r3.wid && r1.wok == r3.wok && r1.prec == r3.prec && r1.pok == r3.pok && r3.reproduced == r1.reproduced
+							q.truth("C14", "the directive seen by a SafeFormat method changes after it has called SafeInt/SafeUint/SafeFloat/SafeString", same3, info+fmt.Sprintf(" after the writers: %q", r3.reproduced))
+						}
 						bare := fl == "" && wd == "" && pr == "" && verb == 'v'
 						q.truth("C14", "MakeFormat reports the bare %v case wrongly", r1.justV == bare, info)
 						fmt.Fprintf(w, "(mkfmt %s %s %s %s %s %s %d %s %d %d %s %s)\n", b01(r1.flags[0]), b01(r1.flags[1]), b01(r1.flags[2]), b01(r1.flags[3]), b01(r1.flags[4]),
@@ -2302,9 +2538,11 @@ func genQ15(w *bufio.Writer, rng *prng, n int, depth int) {
 				flags = rng.pick([]string{"+", "-", " ", "8", "-12", ".3", "+10", "#", "#+"})
 			}
 			var a interface{}
-			switch rng.intn(11) {
+			switch rng.intn(12) {
 			case 8:
 				a = shared // the same error value, possibly under several directives of the call
+			case 11:
+				a = (*plainErr)(nil) // a typed nil pointer is still an error value (its Error method panics on it: <nil>)
 			case 9:
 				a = &panicErr{"boom‹"} // its Error method panics: reported in place, under the verb v
 			case 10:
@@ -2522,6 +2760,25 @@ type holder struct {
 	I interface{}
 }
 
+// errors whose underlying type is a byte slice / byte array (string verbs must not print them as bytes)
+type bytesErr []byte
+
+func (e bytesErr) Error() string { return "bytes error (" + string(e) + ")" }
+
+type arrErr [2]byte
+
+func (e arrErr) Error() string { return "array error (" + string(e[:]) + ")" }
+
+// identity of error values, also for error types that are not comparable (byte slices)
+func sameErr(a, b error) (same bool) {
+	defer func() {
+		if recover() != nil {
+			same = reflect.DeepEqual(a, b)
+		}
+	}()
+	return a == b
+}
+
 func genQ17(w *bufio.Writer, rng *prng, n int, depth int) {
 	q := &qw{w}
 	setRegistry(false)
@@ -2532,6 +2789,8 @@ func genQ17(w *bufio.Writer, rng *prng, n int, depth int) {
 		func() error { return errFormatter{"ef"} },
 		func() error { return (*plainErr)(nil) },
 		func() error { return &plainErr{"panic-in-hook"} },
+		func() error { return bytesErr("ab") },
+		func() error { return arrErr{'c', 'd'} },
 	}
 	verbs := []string{"%v", "%s", "%+v", "%d", "%x", "%q", "%#v", "%10v", "%-8s"}
 	const hookText = "HOOK[‹u›]"
@@ -2559,6 +2818,7 @@ func genQ17(w *bufio.Writer, rng *prng, n int, depth int) {
 				{"in map value", func() string { return string(redact.Sprintf("<"+d+">", map[int]interface{}{1: e})) }, "", ""},
 				{"in exported field", func() string { return string(redact.Sprintf("<"+d+">", holder{E: e})) }, "", ""},
 				{"in interface field of pointer to struct", func() string { return string(redact.Sprintf("<"+d+">", &holder{I: e})) }, "", ""},
+				{"in []error", func() string { return string(redact.Sprintf("<"+d+">", []error{e})) }, "<[", "]>"},
 			}
 			for _, pos := range positions {
 				hookLog = nil
@@ -2570,7 +2830,7 @@ func genQ17(w *bufio.Writer, rng *prng, n int, depth int) {
 				}
 				q.pred("C01", "well-formed", "redactable", lit(out), info)
 				if hookOn {
-					called := len(hookLog) == 1 && hookLog[0].err == e
+					called := len(hookLog) == 1 && sameErr(hookLog[0].err, e)
 					q.truth("C17", "hook not called exactly once with the error ("+pos.name+")", called, info+fmt.Sprintf(" log=%v", hookLog))
 					if called {
 						wantVerb := rune(d[len(d)-1])
@@ -2632,7 +2892,7 @@ func genQ17(w *bufio.Writer, rng *prng, n int, depth int) {
 					var out string
 					p, _ := try(func() { out = string(redact.Sprintf(d, mkc())) })
 					if !p {
-						q.truth("C17", fmt.Sprintf("hook not called exactly once for an error under Safe() (%d)", ci), len(hookLog) == 1 && hookLog[0].err == e && strings.Contains(out, "HOOK["), info+fmt.Sprintf(" out=%s log=%v", out, hookLog))
+						q.truth("C17", fmt.Sprintf("hook not called exactly once for an error under Safe() (%d)", ci), len(hookLog) == 1 && sameErr(hookLog[0].err, e) && strings.Contains(out, "HOOK["), info+fmt.Sprintf(" out=%s log=%v", out, hookLog))
 					}
 				}
 			}
@@ -2646,7 +2906,7 @@ func genQ17(w *bufio.Writer, rng *prng, n int, depth int) {
 			if hookOn && !isPanic {
 				hookLog = nil
 				s, got := redact.HelperForErrorf("wrap: %w", e)
-				q.truth("C17", "%w operand: hook not called once with verb 'v'", len(hookLog) == 1 && hookLog[0].verb == 'v' && got == e, info+fmt.Sprintf(" log=%v", hookLog))
+				q.truth("C17", "%w operand: hook not called once with verb 'v'", len(hookLog) == 1 && hookLog[0].verb == 'v' && sameErr(got, e), info+fmt.Sprintf(" log=%v", hookLog))
 				q.eq("C17", "%w operand not rendered solely by the hook", lit(string(s)), lit("wrap: "+hookText), info)
 				// a %w directive carrying flags, a width or an explicit argument index is still a %w
 				for _, wf := range []struct {
@@ -2657,7 +2917,7 @@ func genQ17(w *bufio.Writer, rng *prng, n int, depth int) {
 					var got2 error
 					p, _ := try(func() { _, got2 = redact.HelperForErrorf(wf.f, wf.args...) })
 					if !p {
-						q.truth("C17", "%w with flags/width/index: hook not called once with verb 'v' for the operand", len(hookLog) == 1 && hookLog[0].verb == 'v' && hookLog[0].err == e && got2 == e, info+fmt.Sprintf(" format=%q log=%v", wf.f, hookLog))
+						q.truth("C17", "%w with flags/width/index: hook not called once with verb 'v' for the operand", len(hookLog) == 1 && hookLog[0].verb == 'v' && sameErr(hookLog[0].err, e) && sameErr(got2, e), info+fmt.Sprintf(" format=%q log=%v", wf.f, hookLog))
 					}
 				}
 			}
